@@ -146,3 +146,66 @@ func VH_C17_OriginalDirectory() {
 	}
 	vhAssert(bytes.Equal(append(append([]byte{}, entries...), eod...), cd), "re-emitted-directory-equals-the-original-bytes")
 }
+
+// H17.b: ZIP64 extended information per APPNOTE 4.5.3: the record carries,
+// in the order uncompressed size, compressed size, local header offset, ONLY
+// the fields whose 32-bit counterpart in the header is 0xFFFFFFFF. Every
+// combination of escaped fields is parsed to the 64-bit values.
+func VH_C17_Zip64ExtraVariants() {
+	escU, escC, escO := vhBool("usize-escaped"), vhBool("csize-escaped"), vhBool("offset-escaped")
+	vhAssume(escU || escC || escO)
+	u64, c64, o64 := vhU64("usize64"), vhU64("csize64"), vhU64("offset64")
+	u32, c32, o32 := vhU32("usize32"), vhU32("csize32"), vhU32("offset32")
+	vhAssume(u32 != uint32Max && c32 != uint32Max && o32 != uint32Max)
+	var ext []byte
+	wantU, wantC, wantO := uint64(u32), uint64(c32), uint64(o32)
+	if escU {
+		ext = append(ext, le64(u64)...)
+		wantU, u32 = u64, uint32Max
+	}
+	if escC {
+		ext = append(ext, le64(c64)...)
+		wantC, c32 = c64, uint32Max
+	}
+	if escO {
+		ext = append(ext, le64(o64)...)
+		wantO, o32 = o64, uint32Max
+	}
+	extra := append(append(le16(zip64ExtraID), le16(uint16(len(ext)))...), ext...)
+	hdr := zipCentralDir{Signature: directoryHeaderSignature, CompressedSize: c32, UncompressedSize: u32, Offset: o32, ExtraLen: uint16(len(extra)), ReaderVersion: zip45}
+	var cd bytes.Buffer
+	binary.Write(&cd, binary.LittleEndian, hdr)
+	cd.Write(extra)
+	binary.Write(&cd, binary.LittleEndian, zipEndRecord{Signature: directoryEndSignature})
+	d, err := ReadWithDirectory(bytes.NewReader(nil), 1<<40, cd.Bytes())
+	vhAssert(err == nil, "valid-zip64-extra-accepted")
+	if err != nil {
+		return
+	}
+	f := d.File[0]
+	vhAssert(f.UncompressedSize == wantU && f.CompressedSize == wantC && f.Offset == wantO, "zip64-fields-read-in-appnote-order")
+	vhReach("parsed") // vh:require parsed
+}
+
+// H17.g: locating the end of the central directory. An archive may end with
+// a comment of up to 65535 bytes after the end record (APPNOTE 4.3.16).
+func VH_C17_FindDirectoryWithComment() {
+	k := vhConcretize(vhInt("comment-bytes", 0, 2), 4)
+	body := vhBytes("body", 4)
+	cdOff := uint32(len(body))
+	var end bytes.Buffer
+	binary.Write(&end, binary.LittleEndian, zipEndRecord{Signature: directoryEndSignature, CDOffset: cdOff, CommentLength: uint16(k)})
+	comment := vhBytes("comment", k)
+	for _, c := range comment {
+		vhAssume(c != 'P') // keep the comment from imitating a record signature
+	}
+	file := append(append(append([]byte{}, body...), make([]byte, 20)...), end.Bytes()...) // 20 bytes where a ZIP64 locator would be
+	file = append(file, comment...)
+	loc, err := FindDirectory(bytes.NewReader(file), int64(len(file)))
+	vhReach("searched") // vh:require searched
+	if k == 0 {
+		vhAssert(err == nil && loc == int64(cdOff), "directory-found")
+	} else {
+		vhAssert(err == nil && loc == int64(cdOff), "directory-found/archive-with-comment")
+	}
+}
